@@ -55,8 +55,19 @@ Definition sem_member (m : cmember Q) : tv :=
   match m with MCond c => sem_cond c | MExpr e => eval3 e end.
 
 (* meaning of a holder: no condition = no predicate = every row qualifies *)
+(* a chain written by and_or_where: SQL reads the flat text  m0 op1 m1 op2 m2 ..  with AND binding tighter than OR,
+   i.e. as the OR of its maximal AND-runs *)
+Fixpoint sem_chain_from (acc : tv) (ms : list (bool * expr Q)) : tv :=
+  match ms with
+  | [] => acc
+  | (true, e) :: rest => or3 acc (sem_chain_from (eval3 e) rest)
+  | (false, e) :: rest => sem_chain_from (and3 acc (eval3 e)) rest
+  end.
+Definition sem_chain (ms : list (bool * expr Q)) : tv :=
+  match ms with [] => T3 | (_, e) :: rest => sem_chain_from (eval3 e) rest end.
+
 Definition sem_holder (h : holder Q) : tv :=
-  match h with HEmpty => T3 | HCond c => sem_cond c end.
+  match h with HEmpty => T3 | HChain ms => sem_chain ms | HCond c => sem_cond c end.
 End Sem.
 
-Arguments eval3 {Q}. Arguments sem_cond {Q}. Arguments sem_member {Q}. Arguments sem_holder {Q}.
+Arguments eval3 {Q}. Arguments sem_cond {Q}. Arguments sem_member {Q}. Arguments sem_holder {Q}. Arguments sem_chain {Q}. Arguments sem_chain_from {Q}.
